@@ -94,7 +94,7 @@ class Engine:
         # a small configuration whose state graph is dumped: per-action transition counts
         # (-coverage is unusable with the mutually recursive Exp / Sub1)
         runs = [((0, 1, 3, "FALSE"), True)]
-        runs += [((2, 3, 5, "FALSE"), False), ((2, 1, 4, "TRUE"), False)] if thorough else [((2, 1, 4, "FALSE"), False)]
+        runs += [((2, 2, 5, "FALSE"), False), ((2, 1, 4, "TRUE"), False)] if thorough else [((2, 0, 4, "FALSE"), False)]
         for consts, dump in runs:
             res = ctx.tlc("Cpp_MC", MC_CFG % consts, label="laws+machine body<=%d in<=%d lines<=%d ops=%s" % consts,
                           coverage=False, workers=8, extra=["-dump", "dot,actionlabels", dot] if dump else None)
@@ -132,7 +132,7 @@ class Engine:
                         "ref": cppgen.encode_obs([(k, s) for k, s, _ in cppgen.lex_text(exp)])})
         for name, text in cppgen.DIRECTED_UNITS:
             out.append({"name": "directed-" + name, "text": text, "want": "", "ref": None})
-        n = 5000 if thorough else 230
+        n = 3500 if thorough else 230
         seen = set()
         while len(seen) < n:
             text = cppgen.gen_unit(ctx.rng)
@@ -155,8 +155,9 @@ class Engine:
         recs = [self.record(u) for u in units]
         path = ctx.trace_file(recs)
         dot = os.path.join(ctx.workdir, "cpp_eval.dot")
+        # few workers: every worker parses the JSON file again, and the units are cheap
         res = ctx.tlc("Cpp_Eval", EVAL_CFG, label=label, env={"TRACE_FILE": path}, continue_=True, coverage=False,
-                      workers=8, extra=["-dump", "dot,actionlabels", dot] if dump else None)
+                      workers=4, extra=["-dump", "dot,actionlabels", dot] if dump else None)
         os.unlink(path)
         if dump:
             self.count_actions(ctx, dot, "Cpp_Eval")
@@ -221,7 +222,7 @@ class Engine:
             recs.append({"lines": cppgen.encode_unit(u["text"]), "obs": g, "tobs": g, "want": ""})
         path = ctx.trace_file(recs)
         res = ctx.tlc("Cpp_Eval", EVAL_CFG, label="reference cross-validation (gcc -E)", env={"TRACE_FILE": path},
-                      continue_=True, coverage=False, workers=8)
+                      continue_=True, coverage=False, workers=4)
         os.unlink(path)
         bad = sorted({e.last.get("i") for e in res.errors if e.name == "Conforms" and isinstance(e.last.get("i"), int)})
         ctx.cov["gcc_cross_validation"] = {"units": len(sample), "disagreements": len(bad)}
@@ -249,8 +250,7 @@ class Engine:
             self.judge(ctx, [{"name": ctx.only["key"].rsplit(":", 1)[-1], "text": text, "want": "", "ref": None}], "replay",
                        guard=thorough)
             return
-        if not os.environ.get("C26_DEV_SKIP_MC"):
-            self.model_check(ctx, thorough)
+        self.model_check(ctx, thorough)
         try:
             import ppci.lang.c  # noqa: a changed tree may not even import
         except Exception as e:
@@ -260,7 +260,7 @@ class Engine:
         for u in units[:: max(1, len(units) // 4)]:
             ctx.sample({"unit": u["name"], "text": u["text"]})
         first = True
-        for chunk in core.chunks(units, 700):
+        for chunk in core.chunks(units, 400 if not thorough else 1200):
             self.judge(ctx, chunk, "units %s" % ("(dumped)" if first else ""), dump=first and len(chunk) <= 400, guard=thorough)
             first = False
         missing = [a for a in ACTIONS + ["End"] if not ctx.cov["actions"].get("Cpp_Eval." + a)] if not thorough else []
